@@ -79,6 +79,73 @@ func (g *Gen) wrapCoef() *big.Int {
 	return v
 }
 
+// topValue: values at the very top of the range: coefficients at or just below the largest one (and its decimal
+// prefixes), the largest power of ten, all-nines, at the largest exponents
+func (g *Gen) topValue() d128.Decimal {
+	one := big.NewInt(1)
+	var c *big.Int
+	switch g.r.Intn(7) {
+	case 0:
+		c = new(big.Int).Set(cMax)
+	case 1:
+		c = new(big.Int).Sub(cMax, big.NewInt(int64(g.r.Intn(20))))
+	case 2: // a decimal prefix of the largest coefficient, possibly minus a unit
+		j := 1 + g.r.Intn(25)
+		c = new(big.Int).Div(cMax, pow10(j))
+		if g.r.Intn(2) == 0 {
+			c.Sub(c, one)
+		}
+	case 3:
+		c = pow10(g.r.Intn(35))
+	case 4:
+		c = new(big.Int).Sub(pow10(1+g.r.Intn(34)), one)
+	case 5: // the top 2^64-wide band of coefficients
+		c = new(big.Int).Sub(cMax, new(big.Int).SetUint64(g.r.Uint64()))
+	default:
+		c = g.fullCoef()
+	}
+	return mk(g.r.Intn(2) == 0, c, eMax-g.r.Intn(3)*g.r.Intn(12))
+}
+
+// bottomValue: the smallest magnitudes: few digits at the smallest exponents
+func (g *Gen) bottomValue() d128.Decimal {
+	c := big.NewInt(int64(1 + g.r.Intn(20)))
+	if g.r.Intn(3) == 0 {
+		c = randCoef(g.r)
+		if c.Sign() == 0 {
+			c = big.NewInt(1)
+		}
+	}
+	return mk(g.r.Intn(2) == 0, c, eMin+g.r.Intn(3)*g.r.Intn(12))
+}
+
+// mulToTop: a product whose exponent exceeds the largest one and has to be folded into the coefficient, landing at or
+// just around the largest finite value
+func (g *Gen) mulToTop() (x, y d128.Decimal) {
+	t := g.topValue()
+	_, neg, c, e := unmk(t)
+	j := 1 + g.r.Intn(20)
+	p := new(big.Int).Div(c, pow10(j)) // c ~ p * 10^j
+	if p.Sign() == 0 {
+		p = big.NewInt(1)
+	}
+	k := g.r.Intn(j + 1)
+	yc := pow10(k)
+	if g.r.Intn(3) == 0 {
+		yc = big.NewInt(int64(1 + g.r.Intn(9)))
+		k = 0
+	}
+	// p * 10^k * 10^(ex+ey) should equal about c * 10^e  =>  ex + ey = e + j - k
+	sum := e + j - k + g.r.Intn(3) - 1
+	ex := clampExp(sum - g.r.Intn(40))
+	ey := clampExp(sum - ex)
+	x, y = mk(neg, p, ex), mk(g.r.Intn(2) == 0, yc, ey)
+	if g.r.Intn(2) == 0 {
+		x, y = y, x
+	}
+	return
+}
+
 // mulSolved: a * b whose exact product has 35+j digits with a chosen j-digit tail (guard digit + sticky pattern)
 func (g *Gen) mulSolved() (x, y d128.Decimal, ok bool) {
 	j := 1 + g.r.Intn(9)
